@@ -100,11 +100,12 @@ OriginalEv(e) ==
   /\ UNCHANGED <<cache, loaded, tab>>
 
 (* the instance under test is created after another instance with other options: the native rewriter must be   *)
-(* handed exactly the configuration the caller gave (nothing of the other instance leaks into it)              *)
+(* handed what a freshly loaded package hands it for the same configuration (nothing of the other instance      *)
+(* leaks into it)                                                                                               *)
 NewEv(e) ==
   /\ e.ev = "new"
-  /\ IF e.cfg_same THEN Verdict(e.rid, "C16", "ok", "configuration handed on as given")
-     ELSE Verdict(e.rid, "C16", "reject", <<"the native rewriter was created with a configuration the caller did not give", e.cfg_got>>)
+  /\ IF e.cfg_same THEN Verdict(e.rid, "C16", "ok", "configuration as from a fresh package")
+     ELSE Verdict(e.rid, "C16", "reject", <<"the native rewriter was created with another configuration than a fresh package creates it with", e.cfg_got>>)
   /\ UNCHANGED <<cache, loaded, tab>>
 
 (* many other files were rewritten: nothing changes for the files of the history *)
